@@ -302,8 +302,8 @@ class MTVRPAdapter(RoutingAdapter):
             single = max(max(T[0][j], lo_u[j]) + svc_u[j] + T[j][0] for j in range(1, n + 1))
             if opn:
                 if site == "odep":
-                    # passes the checker's data assert (lo + d_j0 + service <= hi_0) with little room
-                    h0 = max(lo_u[j] + D[j][0] + svc_u[j] for j in range(1, n + 1)) + rng.choice([0, 1, 5])
+                    # passes the checker's data assert (lo + d_j0 / speed + service <= hi_0) with little room
+                    h0 = max(lo_u[j] + T[j][0] + svc_u[j] for j in range(1, n + 1)) + rng.choice([0, 1, 5])
                     h0 = max(h0, 1)
                 else:
                     h0 = ret + 600 + single
@@ -564,7 +564,7 @@ class MTVRPAdapter(RoutingAdapter):
                 if S["open"] and not self.clock_ok(S, acts, True):
                     return "mtvrp/O+TW: checker-enforces-depot-deadline-on-open-route"       # open
                 if speed != 1.0 and self.clock_ok(S, acts, True) and self.data_assert_ok(S, True) and not self.data_assert_ok(S, False):
-                    return "mtvrp/TW,speed!=1: checker-data-assert-ignores-speed"            # residual of the speed defect
+                    return "mtvrp/TW,speed!=1: checker-data-assert-ignores-speed"            # fixed by /repo 004c254
                 if speed != 1.0 and self.clock_ok(S, acts, True) and not self.clock_ok(S, acts, False):
                     return "mtvrp/TW,speed!=1: checker-ignores-speed"                        # fixed by /repo ea27328
             if tag == 15 and in_range:
@@ -614,7 +614,8 @@ class MTVRPAdapter(RoutingAdapter):
             ("open_depot", mk([P(0), P(80)], [0, .5], [0, 0], open_=True, tw=[[0, 1.0], [0, 115 / 128.0]], svc=[0, 0]), [1, 0]),
             ("speed2", mk([P(0), P(80)], [0, .5], [0, 0], tw=[[0, 4.0], [0, 0.5]], svc=[0, 0], speed=2.0), [1, 0]),
             ("speed_half", mk([P(0), P(80)], [0, .5], [0, 0], tw=[[0, 4.0], [0, 1.0]], svc=[0, 0], speed=0.5), [1, 0]),
-            # speed 2: window opens at 40/128 = arrival; back at 80/128 <= 100/128; the data assert adds the distance 80/128
+            # speed 2: window opens at 40/128 = arrival; back at 80/128 <= 100/128; the data assert used to add the distance 80/128
+            # (fixed by /repo 004c254; kept so that the signature is reported again if it returns)
             ("data_assert_speed", mk([P(0), P(80)], [0, .5], [0, 0], tw=[[0, 100 / 128.0], [40 / 128.0, 1.0]], svc=[0, 0], speed=2.0), [1, 0]),
         ]
 
